@@ -1,6 +1,6 @@
 #!/bin/bash
 # allchecks.sh [tier] : run every registered check on the unchanged tree, validate MANIFEST and evidence against the schemas
-cd /verif
+cd "$(dirname "$(readlink -f "$0")")/.."
 TIER=${1:-quick}
 fail=0
 for p in $(python3 -c "import json; print(' '.join(c['property_id'] for c in json.load(open('MANIFEST.json'))['checks']))"); do
@@ -11,11 +11,11 @@ for p in $(python3 -c "import json; print(' '.join(c['property_id'] for c in jso
 done
 python3-vt - <<'PY'
 import json, jsonschema, glob
-m = json.load(open('/verif/MANIFEST.json'))
+m = json.load(open('MANIFEST.json'))
 jsonschema.validate(m, json.load(open('/root/.vp/MANIFEST.schema.json')))
 es = json.load(open('/root/.vp/EVIDENCE.schema.json'))
 for c in m['checks']:
-    e = json.load(open(c['evidence_file']))
+    e = json.load(open(c['evidence_file'].replace('/verif/', './')))
     jsonschema.validate(e, es)
     assert e['coverage']['discharged'] == e['coverage']['obligations'], c['property_id']
 print('manifest + %d evidence files valid' % len(m['checks']))
